@@ -155,3 +155,59 @@ def hsms_settings(active=False, **kw):
             return self.loop
 
     return LoopHsmsSettings(connect_mode=mode, **kw)
+
+
+class Link:
+    """Two LoopConnections back to back: what one writes arrives at the other, cut into explorer-chosen chunks."""
+
+    def __init__(self, a: LoopConnection, b: LoopConnection, chunk_menu=False):
+        self.a, self.b = a, b
+        a.link = b.link = self
+        self.chunk_menu = chunk_menu
+        self.writes = []  # global order: (virtual time, "a>b" | "b>a", bytes)
+        self.corrupt = None  # (direction, index of the write in that direction, byte offset, xor mask)
+        self.count = {"a>b": 0, "b>a": 0}
+        self.all_bytes = False
+
+    def other(self, c):
+        return self.b if c is self.a else self.a
+
+    def direction(self, c):
+        return "a>b" if c is self.a else "b>a"
+
+    def connect(self):
+        self.a._enabled = self.b._enabled = True
+        self.a.peer_connect()
+        self.b.peer_connect()
+
+    def endpoint_enabled(self, c):
+        pass
+
+    def endpoint_disabled(self, c):
+        pass
+
+    def closed_by(self, c):
+        self.other(c).eof = True
+
+    def forward(self, c, data):
+        s = vrt.SCHED
+        d = self.direction(c)
+        idx = self.count[d]
+        self.count[d] += 1
+        self.writes.append((s.clock, d, data))
+        if self.corrupt is not None and self.corrupt[0] == d and self.corrupt[1] == idx and self.corrupt[2] < len(data):
+            off, mask = self.corrupt[2], self.corrupt[3]
+            data = data[:off] + bytes([data[off] ^ mask]) + data[off + 1:]
+        dst = self.other(c)
+        cuts = []
+        if self.all_bytes:
+            cuts = list(range(1, len(data)))
+        elif self.chunk_menu and len(data) > 1:
+            ch = s.choose(4, "cut")
+            if ch == 1:
+                cuts = [1]
+            elif ch == 2:
+                cuts = [len(data) // 2]
+            elif ch == 3:
+                cuts = [len(data) - 1]
+        dst.peer_send(data, cuts)
